@@ -1,5 +1,7 @@
 """C06: rounding to a scale -- round_pair decision table, lazy-flag consistency, default mode of round(n)."""
-from rules import tablerules as TR, provrules as R, prov
+from rules import tablerules as TR, provrules as R, prov, signsticky as S
+from props import exact
+from props.c15 import no_flooring
 
 
 def run(ctx):
@@ -8,7 +10,7 @@ def run(ctx):
                        '(path enumeration over terms; atoms = branch predicates) and compared, for all 4200 abstract inputs '
                        '(7 modes x 3 signs x 100 digit pairs x tail flag), with the documented mode definitions by evaluating the path '
                        'predicates -- the function is never run.  needs_trailing_zeros is cross-checked against that table. '
-                       'PROV: round(n) uses the configured default mode.  NOT decided: carry propagation and the position arithmetic of with_scale_round.')
+                       'PROV: round(n) uses the configured default mode. R-SCALE: with_scale / set_scale / take_and_scale / to_owned_with_scale return exactly the requested scale on every path and are exact when extending; R-SIGN: with_scale_round gives round_pair the receiver\'s own sign; R-NOCALL: truncation uses truncating division. NOT decided: carry propagation and the position arithmetic of with_scale_round.')
     F = ctx.facts('default', 'rel')
     cells, table = TR.round_pair_table(rep, F)
     rep.floor('round_pair abstract cells', cells, 4200)
@@ -20,5 +22,13 @@ def run(ctx):
     R.default_ops(rep, F, F._prov, rule='PROV-DEFAULTOPS')
     # keep only the round(n) obligation of that family here
     rep.obs = rep.obs[:sub_before] + [o for o in rep.obs[sub_before:] if 'BigDecimal::round->' in o['key']]
+    # (4) the rescale routines return exactly the requested scale; their extension branch is exact
+    nr = exact.rescale_primitives(rep, F)
+    rep.floor('rescale primitive obligations', nr, 8)
+    # (5) with_scale_round hands the receiver's own sign to round_pair; truncation never floors
+    wsr = [f for f in F.real_fns() if not f.is_closure and f.name == 'BigDecimal::with_scale_round']
+    ns = S.sign_sinks(rep, F, F._prov, wsr)
+    rep.floor('round_pair calls in with_scale_round', ns, 3)
+    no_flooring(rep, F)
     rep.extra['exhaustive_table'] = True
     rep.trust('RoundingMode documentation (identical to IEEE-754 / java.math.RoundingMode) as the oracle for the table')
